@@ -3,6 +3,7 @@
 # Prints per check: CAUGHT / MISSED.
 set -u
 P="$1"; shift
+[[ "$P" != revert:* ]] && P="$(realpath "$P")"
 cd /repo || exit 2
 if [ -n "$(git status --porcelain --untracked-files=no)" ]; then echo "/repo not clean"; exit 2; fi
 if [[ "$P" == revert:* ]]; then
